@@ -317,6 +317,50 @@ func ExecuteScenario(env *Env, sc *Scenario) (out *Outcome, err error) {
 			if len(steps) == 0 {
 				continue
 			}
+			// A2: a run that failed (a generator of SOME package returned an error) leaves every package either
+			// as it was before the run or as the run that processes it alone leaves it - a package is never
+			// half-done because another one failed
+			for _, st := range steps[:len(steps)-1] {
+				if st.Op.Kind != "run" || st.Resp == nil || st.Resp.ExecErr == "" || st.Killed || st.Pre == nil || st.Post == nil {
+					continue
+				}
+				ioFault := false
+				for _, e := range st.Resp.Events {
+					if strings.HasPrefix(e.Kind, "os.") && e.Fault != "" {
+						ioFault = true
+					}
+				}
+				if ioFault {
+					continue
+				}
+				for pi, avi := range alone {
+					dir := filepath.Clean(sc.Module.Pkgs[pi].Dir)
+					// the package the error is about may be half-written (its first files are in place when a later
+					// one turns out to be unparseable): the clause is about the OTHER packages
+					if e := st.Resp.ExecErr; strings.Contains(e, sc.Module.ImportPath(pi)) || strings.Contains(e, filepath.Join(results[vi].x.Root, dir)+"/") || strings.Contains(e, filepath.Join("$ROOT", dir)+"/") {
+						continue
+					}
+					pick := func(snap Snapshot) map[string]string {
+						out := map[string]string{}
+						for rel, fp := range snap {
+							if filepath.Clean(filepath.Dir(rel)) == dir && strings.HasPrefix(filepath.Base(rel), sc.Base+".") {
+								out[rel] = fp
+							}
+						}
+						return out
+					}
+					pre, post := pick(st.Pre), pick(st.Post)
+					want := map[string]string{}
+					for rel, content := range filterDir(results[avi].state, dir) {
+						want[rel] = fmt.Sprintf("f:%x", sha256.Sum256([]byte(content)))
+					}
+					env.Stats.Add("probe/after-failure-package-states-compared", 1)
+					if !sameFiles(post, pre) && !sameFiles(post, want) {
+						out.Violations = append(out.Violations, Violation{Property: "C05", Oracle: "A2", Class: "package-half-done-after-failure-elsewhere",
+							Detail: fmt.Sprintf("%s: after the run failed with %q the generated files of %s are neither those from before the run nor those of %s: %s", v.Name, clip(st.Resp.ExecErr), sc.Module.ImportPath(pi), sc.Variants[avi].Name, describeFiles(post, pre, want)), Variant: v.Name})
+					}
+				}
+			}
 			last := steps[len(steps)-1] // earlier steps of the variant (a failing run) only prepare process state
 			if last.Resp == nil || last.Resp.ExecErr != "" || last.Resp.LoadErr != "" {
 				continue
@@ -349,6 +393,32 @@ func ExecuteScenario(env *Env, sc *Scenario) (out *Outcome, err error) {
 		}
 	}
 	return out, nil
+}
+
+func describeFiles(post, pre, alone map[string]string) string {
+	var out []string
+	names := map[string]bool{}
+	for _, m := range []map[string]string{post, pre, alone} {
+		for k := range m {
+			names[k] = true
+		}
+	}
+	for _, k := range sortedKeys(names) {
+		state := func(m map[string]string) string {
+			switch v, ok := m[k]; {
+			case !ok:
+				return "absent"
+			case v == pre[k]:
+				return "as-before"
+			case v == alone[k]:
+				return "as-alone"
+			default:
+				return "other"
+			}
+		}
+		out = append(out, fmt.Sprintf("%s now=%s alone=%s before=%s", k, state(post), state(alone), map[bool]string{true: "present", false: "absent"}[pre[k] != ""]))
+	}
+	return strings.Join(out, "; ")
 }
 
 func shadowFacts(m *ModuleSpec) map[string]string {
